@@ -130,8 +130,12 @@ class MemoryStorageBackend(StorageBackend):
         )
 
     def list_functions(self) -> List[FunctionReference]:
+        # Only functions that still have mementos count: lookups and forgets leave empty
+        # per-function dictionaries behind.
         return [
-            FunctionReference.from_qualified_name(key) for key in self.mementos.keys()
+            FunctionReference.from_qualified_name(key)
+            for key, memento_dict in self.mementos.items()
+            if memento_dict
         ]
 
     def list_mementos(self, fn: FunctionReference, limit: int = None) -> List[Memento]:
